@@ -367,9 +367,41 @@ def run(ctx: Ctx) -> None:
                 n12 += 1
                 guards = [b for b in gcfg.nodes if b.kind == "branch" and b.label == "F" and b.ast is not None and "__repr__" in unparse(b.ast, 200)]
                 from .common import dominated as _dom12
+                from ..propdom import excluding_branches as _exb12
                 desc = f"`{unparse(r_, 30)}` is taken only for values whose type defines a text form"
-                if guards and _dom12(ctx, g_, r_, guards) is None:
+                # the bad world: the object looked at exists and has the default text; no path to `repr(..)` may be possible in it
+                world12 = {}
+                for b in guards:
+                    world12[unparse(b.ast)] = True
+                    for y in ast.walk(b.ast):
+                        if isinstance(y, ast.Name):
+                            world12[f"{y.id} is None"] = False
+                av12 = _exb12(prog, g_, gcfg, world12) if world12 else []
+                guarded12 = bool(guards) and gcfg.find_path([gcfg.entry], gcfg.nodes_of(r_), avoid=av12) is None
+                if guards and (guarded12 or _dom12(ctx, g_, r_, guards) is None):
                     rep.ok("C03.R12", g_.qname, desc, g_.loc(r_))
+                    # ... and the text of a datetime / time includes the text of its time zone: the test looks at `<value>.tzinfo` too
+                    n12 += 1
+                    fl12 = flow_of(prog, g_)
+                    looks = False
+                    for b in guards:
+                        for y in ast.walk(b.ast):
+                            if isinstance(y, ast.Name):
+                                try:
+                                    ds12 = fl12.defs_of_use(y)
+                                except Exception:
+                                    ds12 = []
+                                if any(d12.value is not None and "tzinfo" in unparse(d12.value, 200) and ("getattr" in unparse(d12.value, 200) or ".tzinfo" in unparse(d12.value, 200)) for d12 in ds12):
+                                    looks = True
+                            if isinstance(y, ast.Attribute) and y.attr == "tzinfo":
+                                looks = True
+                    d12b = "the text-form test covers the time zone held by a datetime / time value"
+                    if looks:
+                        rep.ok("C03.R12", g_.qname, d12b, g_.loc(r_))
+                    else:
+                        rep.bad("C03.R12", g_.qname, d12b, g_.loc(r_), [f"{g_.loc(r_)}: `repr(<datetime>)` contains `repr(<its tzinfo>)`; the guard `{unparse(guards[0].ast, 60)}` looks at the value's own type only",
+                                "datetime.datetime(2020, 1, 1, tzinfo=TZ()) with `class TZ(datetime.tzinfo)` that defines no __repr__ is hashed from `...tzinfo=<pkg.TZ object at 0x7f..>`: the "
+                                "signature differs from process to process"], "tz-inside-datetime", what="the memory address of a time zone object inside a datetime is hashed")
                 else:
                     rep.bad("C03.R12", g_.qname, desc, g_.loc(r_), [f"{g_.loc(st)}: the branch accepts every subclass of datetime.tzinfo",
                             f"{g_.loc(r_)}: a subclass that defines no __repr__ is hashed from `<pkg.TZ object at 0x7f..>`: the signature differs between two processes, and between two equal "
